@@ -93,7 +93,7 @@ def _run(nc, steps, order):
             def outer_eff(v):
                 effects.append(("outer", v))
 
-            outer_ds = dataset(outer, effects=[outer_eff], cache=RecCache(store_calls, "outer"))
+            outer_ds = dataset(outer, effects=[outer_eff], cache=RecCache(store_calls, "outer"), callback=lambda v: ("cb", v))
         default_log = rt._DEFAULT_HANDLERS[llogging.LogRequest]
 
         def on_log(request):
@@ -127,7 +127,7 @@ def _run(nc, steps, order):
             new_store = store_calls[marks[2]:]
             new_requests = requests[marks[3]:]
             new_emitted = emitted.records[marks[4]:]
-            exp = ("outer", ("inner", a), b)
+            exp = ("cb", ("outer", ("inner", a), b))      # the callback applies under every switch setting
             note("step", n, "cache", CACHE[c], "effects", EFFECTS[e], "logging", LOGGING[l], "options", o, "got", got, "bodies", new_bodies,
                  "effects run", new_effects, "store calls", new_store, "log requests", len(new_requests), "emitted", len(new_emitted))
             # 1. the value never depends on a switch
@@ -173,7 +173,7 @@ def _run(nc, steps, order):
         llogging.logging = real_logging
 
 
-_B2 = ("history of 2 evaluations on one long-lived graph outer(inner(A), B), each under any switch setting (cache: " + "/".join(CACHE.values()) +
+_B2 = ("history of 2 evaluations on one long-lived graph outer(inner(A), B) (outer has a callback and an effect, inner an effect), each under any switch setting (cache: " + "/".join(CACHE.values()) +
        "; effects: " + "/".join(EFFECTS.values()) + "; logging: " + "/".join(LOGGING.values()) + "), both nesting orders of the two context "
        "managers; A equal or different between the evaluations (unbounded ints); real MemoryCache with a call log; stub S1")
 _W2 = ("every evaluation returns the switch-free value; with caching disabled both bodies run again and the stores see no "
